@@ -1,5 +1,5 @@
 #!/usr/bin/env python3
-"""symkern.py — regenerates coq/gen/KernelGen.v from the terms the REAL C++ numeric kernels compute.
+"""symkern.py — regenerates coq/gen/KernelGen_<family>.v from the terms the REAL C++ numeric kernels compute.
 
 cpp/symkern.cpp instantiates the library's templates ($VERIF_REPO/include, default /repo) with a
 symbolic scalar type (the free term algebra over named variables and integer literals), runs every
@@ -202,11 +202,39 @@ def gallina_arg(t):
 
 
 # ------------------------------------------------------------------------------------------------
+def source_key(inc):
+    import hashlib
+    h = hashlib.sha256()
+    files = [SRC, os.path.abspath(__file__)]
+    for root, _, fs in os.walk(inc):
+        files += [os.path.join(root, f) for f in fs]
+    for f in sorted(files):
+        h.update(f.encode() + b"\0")
+        with open(f, "rb") as fh:
+            h.update(fh.read())
+    return h.hexdigest()[:24]
+
+
 def build_and_run():
+    """the program is rebuilt and re-run whenever a header, cpp/symkern.cpp or this script changed (content hash);
+    otherwise the recorded output of the run on exactly these sources is reused"""
     os.makedirs(BUILD, exist_ok=True)
     inc = os.path.join(REPO, "include")
     if not os.path.isdir(os.path.join(inc, "bspline")):
         die(2, "no library headers under %s (VERIF_REPO=%s)" % (inc, REPO))
+    cache = os.path.join(BUILD, "out-" + source_key(inc) + ".txt")
+    if os.path.exists(cache) and not os.environ.get("VERIF_NO_CACHE"):
+        with open(cache) as f:
+            lines = f.read().splitlines()
+        if lines and lines[-1] == "END":
+            return lines[:-1]
+    lines = build_and_run_uncached(inc)
+    with open(cache, "w") as f:
+        f.write("\n".join(lines + ["END"]) + "\n")
+    return lines
+
+
+def build_and_run_uncached(inc):
     exe = os.path.join(BUILD, "symkern")
     if os.path.exists(exe):
         os.remove(exe)
@@ -278,7 +306,7 @@ def generate(got):
     if missing or extra:
         die(5, "instance list mismatch: missing %s; unexpected %s" % (missing or "-", extra or "-"))
 
-    defs, lemmas = [], []
+    per = {}        # instance -> (definition text, lemma text, statement)
     for name, d in fams:
         ts = got[name]
         used = set()
@@ -296,7 +324,7 @@ def generate(got):
         else:
             body, ty = "[" + ";\n     ".join(gallina(t) for t in ts) + "]", "list F"
         binder = " (%s : F)" % " ".join(d["vars"]) if d["vars"] else ""
-        defs.append("  (* %s *)\n  Definition k_%s%s : %s :=\n    %s.\n" % (d["cxx"], name, binder, ty, body))
+        deftext = "  (* %s *)\n  Definition k_%s%s : %s :=\n    %s.\n" % (d["cxx"], name, binder, ty, body)
 
         app = "k_%s" % name + "".join(" " + v for v in d["vars"])
         if d["vars"]:
@@ -304,10 +332,11 @@ def generate(got):
         rhs = "Ok %s" % app if d["wrap"] == "ok" else app
         quant = "forall %s : F, " % " ".join(d["vars"]) if d["vars"] else ""
         annot = "" if d["vars"] or d["wrap"] == "ok" else " :> F"
-        lemmas.append("Lemma k_%s_ok {F} {K : Ops F} {L : Laws K} :\n  %s%s = %s%s.\nProof. kern_tac. Qed.\n"
-                      % (name, quant, d["call"], rhs, annot))
+        stmt = "%s%s = %s%s" % (quant, d["call"], rhs, annot)
+        lemma = ("Lemma k_%s_ok {F} {K : Ops F} {L : Laws K} :\n  %s.\nProof. kern_tac. Qed.\n" % (name, stmt))
+        per[name] = (deftext, lemma, stmt)
 
-    head = """(* KernelGen.v — GENERATED by gen/symkern.py on every run; do not edit.
+    head = """(* %s — GENERATED by gen/symkern.py on every run; do not edit.
    Each k_<instance> is the arithmetic expression the real C++ template computes, obtained by
    compiling and running include/bspline (internal/misc.h, integration/LinearForm.h,
    integration/BilinearForm.h, operators/Derivative.h, operators/Position.h) over the symbolic
@@ -317,7 +346,8 @@ def generate(got):
    so each term describes the computation for every scalar type.
    Each k_<instance>_ok states that the hand-written model function, applied to the same symbolic
    arguments, yields that expression's value in every ordered field; the proof script is fixed
-   (kern_tac, coq/Proofs_KernelTac.v).  %d instances. *)
+   (kern_tac, coq/Proofs_KernelTac.v).  kernels_<family>_agree is the conjunction of a family's
+   statements.  Families in this file: %s; %d instances. *)
 From Coq Require Import List ZArith NArith.
 From BSpl Require Import Scalar Outcome Support Poly Spline Ops Forms Proofs_KernelTac.
 Import ListNotations.
@@ -326,13 +356,37 @@ Section KernelGen.
   Context {F : Type} {K : Ops F}.
   Local Open Scope F_scope.
 
-""" % len(fams)
+"""
     mid = """End KernelGen.
 
 """
-    probes = ["bi_7_7", "pos_4_6", "lin_8"]
-    tail = "\n" + "".join("Print Assumptions k_%s_ok.\n" % p for p in probes)
-    return head + "\n".join(defs) + mid + "\n".join(lemmas) + tail
+
+    def nest(xs):
+        return xs[0] if len(xs) == 1 else "(conj %s %s)" % (xs[0], nest(xs[1:]))
+
+    files = {}
+    for fname, famlist in FILES:
+        members = [n for n, _ in fams if n.split("_")[0] in famlist]
+        defs = [per[n][0] for n in members]
+        lemmas = [per[n][1] for n in members]
+        summaries = []
+        for fam in famlist:
+            mem = [n for n in members if n.split("_")[0] == fam]
+            conj = " /\\\n    ".join("(%s)" % per[n][2] for n in mem)
+            proof = nest(["(@k_%s_ok F K L)" % n for n in mem])
+            summaries.append("(* %d instances *)\nDefinition kernels_%s_agree : Prop :=\n  forall (F : Type) (K : Ops F) (L : Laws K),\n    %s.\n"
+                             "Lemma kernels_%s_agree_ok : kernels_%s_agree.\nProof. intros F K L. exact %s. Qed.\n"
+                             % (len(mem), fam, conj, fam, fam, proof))
+        tail = "\nPrint Assumptions k_%s_ok.\n" % members[-1]
+        files[fname] = (head % (fname, " ".join(famlist), len(members)) + "\n".join(defs) + mid + "\n".join(lemmas)
+                        + "\n" + "\n".join(summaries) + tail)
+    return files
+
+
+# generated file -> families (a broken kernel only breaks the file, and the property, it belongs to)
+FILES = [("KernelGen_eval.v", ["eval"]), ("KernelGen_arr.v", ["add", "chsize"]),
+         ("KernelGen_misc.v", ["faculty", "facratio", "binom"]), ("KernelGen_der.v", ["der"]),
+         ("KernelGen_pos.v", ["pos"]), ("KernelGen_lin.v", ["lin"]), ("KernelGen_bi.v", ["bi"])]
 
 
 def main():
@@ -341,22 +395,23 @@ def main():
     ap.add_argument("--print", dest="print_", action="store_true", help="print to stdout, write nothing")
     args = ap.parse_args()
 
-    text = generate(collect(build_and_run()))
+    files = generate(collect(build_and_run()))
     if args.print_:
-        sys.stdout.write(text)
+        for fname, text in files.items():
+            sys.stdout.write(text)
         return
     os.makedirs(args.out, exist_ok=True)
-    path = os.path.join(args.out, "KernelGen.v")
-    old = None
-    if os.path.exists(path):
-        with open(path) as f:
-            old = f.read()
-    if old == text:
-        print("symkern.py: %s is up to date (%d instances)" % (path, len(families())))
-    else:
-        with open(path, "w") as f:
-            f.write(text)
-        print("symkern.py: wrote %s (%d instances)" % (path, len(families())))
+    for fname, text in files.items():
+        path = os.path.join(args.out, fname)
+        old = None
+        if os.path.exists(path):
+            with open(path) as f:
+                old = f.read()
+        if old != text:
+            with open(path, "w") as f:
+                f.write(text)
+            print("symkern.py: wrote %s" % path)
+    print("symkern.py: %d instances in %d files under %s" % (len(families()), len(files), args.out))
 
 
 if __name__ == "__main__":
